@@ -777,7 +777,7 @@ func runC05Scenario(rf *runFlags, rnd *rand.Rand, sum *Summary, cf *CasesFile, v
 
 // the set of replicated tables: created on the leader -> appear, deleted -> disappear; a table deleted and created
 // again under the same name is a new table
-func runC05Tables(rf *runFlags, rnd *rand.Rand, sum *Summary, caseNo int, recreate bool) error {
+func runC05Tables(rf *runFlags, rnd *rand.Rand, sum *Summary, rc *CasesFile, caseNo int, recreate bool) error {
 	in := map[string]any{"variant": map[bool]string{false: "tables created and deleted on the leader", true: "table deleted and recreated under the same name"}[recreate], "seed": rf.Seed, "case": caseNo}
 	sys := &c05sys{repCfg: replication.Config{ReconcileInterval: 150 * time.Millisecond,
 		Workers: replication.WorkerConfig{PollInterval: 20 * time.Millisecond, LeaseInterval: 50 * time.Millisecond, LogRPCTimeout: 5 * time.Second, SnapshotRPCTimeout: 20 * time.Second, MaxRecoveryInFlight: 1}}}
@@ -854,6 +854,32 @@ func runC05Tables(rf *runFlags, rnd *rand.Rand, sum *Summary, caseNo int, recrea
 		}
 		return false, why
 	}
+	// the table set as the model sees it: names as numbers
+	nameID := map[string]int{"t": 1, "a": 2, "b": 3}
+	ids := func(csv string) string {
+		var out []string
+		for _, n := range strings.Split(csv, ",") {
+			if n != "" {
+				out = append(out, fmt.Sprint(nameID[n]))
+			}
+		}
+		return cList(out)
+	}
+	settled := func(before string) {
+		var obs []string
+		var sorted []int
+		for _, n := range strings.Split(names(sys.follower), ",") {
+			if n != "" {
+				sorted = append(sorted, nameID[n])
+			}
+		}
+		sort.Ints(sorted)
+		for _, x := range sorted {
+			obs = append(obs, oN(int64(x)))
+		}
+		rc.Add(fmt.Sprintf("{| rc_leader := %s; rc_follower := %s; rc_impl := %s |}", ids(names(sys.leader)), ids(before), oLs(obs)),
+			fmt.Sprintf("leader {%s} follower before {%s}", names(sys.leader), before))
+	}
 	if err := mk("t", 15); err != nil {
 		return err
 	}
@@ -871,6 +897,7 @@ func runC05Tables(rf *runFlags, rnd *rand.Rand, sum *Summary, caseNo int, recrea
 		sum.violate(caseNo, "the follower's tables do not converge to the leader's", in, "initial tables: "+why)
 		return nil
 	}
+	settled("")
 	if !recreate {
 		if err := sys.leader.e.DeleteTable("a"); err != nil {
 			return err
@@ -878,10 +905,13 @@ func runC05Tables(rf *runFlags, rnd *rand.Rand, sum *Summary, caseNo int, recrea
 		if err := mk("b", 12); err != nil {
 			return err
 		}
+		before := names(sys.follower)
 		if ok, why := converged(30 * time.Second); !ok {
 			sum.violate(caseNo, "the follower's tables do not converge to the leader's", in, "after deleting a and creating b: "+why)
 			return nil
 		}
+		settled(before)
+		before = names(sys.follower)
 		// ... down to no table at all
 		for _, n := range []string{"b", "t"} {
 			if err := sys.leader.e.DeleteTable(n); err != nil {
@@ -890,7 +920,9 @@ func runC05Tables(rf *runFlags, rnd *rand.Rand, sum *Summary, caseNo int, recrea
 		}
 		if ok, why := converged(30 * time.Second); !ok {
 			sum.violate(caseNo, "the follower's tables do not converge to the leader's", in, "after deleting every table on the leader: "+why)
+			return nil
 		}
+		settled(before)
 		return nil
 	}
 	// delete and create again under the same name, with different content, within one reconcile interval
@@ -1129,6 +1161,7 @@ func runC05(args []string) error {
 	}()
 	rnd := rf.rng()
 	cf := &CasesFile{Requires: []string{"Model.Bytes", "Model.Obs", "Model.Replication", "Run.C05Run"}, CaseType: "c05case", Check: "c05_check", Show: "c05_model"}
+	rc := &CasesFile{Requires: []string{"Model.Bytes", "Model.Obs", "Model.Reconcile", "Run.C05Run"}, CaseType: "rccase", Check: "rc_check", Show: "rc_model"}
 	variants := []c05variant{
 		{name: "follower from the start", writesBefore: 10, writesDuring: 60, maxMsg: 0},
 		{name: "late follower, leader log compacted (snapshot recovery)", lateFollower: true, writesBefore: 60, writesDuring: 30, snapshotEntries: 1, maxMsg: 0},
@@ -1166,7 +1199,7 @@ func runC05(args []string) error {
 			continue
 		}
 		sum.hist("variants").Inc(map[bool]string{false: "tables created and deleted", true: "table recreated under the same name"}[recreate])
-		if err := runC05Tables(rf, rnd, sum, c, recreate); err != nil {
+		if err := runC05Tables(rf, rnd, sum, rc, c, recreate); err != nil {
 			return fmt.Errorf("tables variant: %w", err)
 		}
 		c++
@@ -1179,6 +1212,13 @@ func runC05(args []string) error {
 		return err
 	}
 	sum.CasesFiles = names
+	if len(rc.Descr) > 0 {
+		rnames, err := rc.Write(rf.Out, "c05_tables", 50)
+		if err != nil {
+			return err
+		}
+		sum.CasesFiles = append(sum.CasesFiles, rnames...)
+	}
 	_ = atomic.Int64{}
 	_ = sort.Ints
 	return sum.write(rf.Out, "c05")
